@@ -157,15 +157,22 @@ func (v *Verifier) contractFor(fn *ssa.Function) *Contract {
 }
 
 func (v *Verifier) specFunc(cf *ContractFile, name string) *SpecFunc {
+	sf, _ := v.specFuncIn(cf, name)
+	return sf
+}
+
+// specFuncIn also returns the contract file that defines the spec function (its type names are
+// resolved in that package).
+func (v *Verifier) specFuncIn(cf *ContractFile, name string) (*SpecFunc, *ContractFile) {
 	if cf != nil {
 		if sf, ok := cf.SpecFuncs[name]; ok {
-			return sf
+			return sf, cf
 		}
 	}
 	// spec functions of the root package are visible everywhere
 	if root := v.Contracts[RepoModule]; root != nil {
 		if sf, ok := root.SpecFuncs[name]; ok {
-			return sf
+			return sf, root
 		}
 	}
 	// and pkg-qualified: pkgname.f
@@ -173,12 +180,12 @@ func (v *Verifier) specFunc(cf *ContractFile, name string) *SpecFunc {
 		for path, c := range v.Contracts {
 			if filepath.Base(path) == name[:i] {
 				if sf, ok := c.SpecFuncs[name[i+1:]]; ok {
-					return sf
+					return sf, c
 				}
 			}
 		}
 	}
-	return nil
+	return nil, nil
 }
 
 // ifaceContract: contract on an interface method, written `func (Iface).Method(recv, args)` with
